@@ -136,7 +136,7 @@ def run(ctx, R, tier):
             problems.append('%s is reached from Renderer::process only: commands would be applied mid-callback' % b.path)
         # (audio side) polled on every callback: no decision in its function may exclude the read, except the absence
         # of the optional component the command belongs to
-        if in_osp:
+        if in_osp or in_dec:
             for g in range(b.n):
                 tg = b.blocks[g]['term']
                 if tg['k'] != 'switch' or b.blocks[g]['cleanup'] or g == bb or not b.dominates(g, bb):
@@ -148,6 +148,9 @@ def run(ctx, R, tier):
                     continue
                 cond = describe(b, tg['op'], depth=3, at=g)
                 if cond.startswith('discr(') and 'spatial_data' in cond:
+                    continue
+                if in_dec and not in_osp and any(k in cond for k in ('Shared::state', 'is_full', 'is_abandoned', 'Try>::branch')):
+                    # the decoder step ends (stopped / abandoned), waits (ring full) or propagates a decoder error
                     continue
                 problems.append('the read is skipped when `%s` takes another branch: a pending command stays unread and is applied late' % cond[:80])
                 break
